@@ -32,7 +32,7 @@ def call_align(fa, M, labels, blank):
         out = fa.force_align(np.array(M, dtype=float), list(labels), blank)
         return [int(x) for x in out]
     except ValueError as e:
-        return 'unalignable' if 'np.inf' in str(e) else 'reject'
+        return 'failure'          # the property speaks of "reports failure": any ValueError, whatever its message
     except IndexError:
         return 'index-error'
 
@@ -42,7 +42,7 @@ def call_positions(fa, M, labels, blank):
         out = fa.align_text(np.array(M, dtype=float), np.array(labels, dtype=int), blank)
         return [int(x) for x in out]
     except ValueError as e:
-        return 'unalignable' if 'np.inf' in str(e) else 'reject'
+        return 'failure'
     except IndexError:
         return 'index-error'
 
@@ -126,15 +126,12 @@ def run(ctx):
                     ctx.violation('suboptimal', 'force_align result is not a minimum-cost alignment', inp, got, best)
             if T > len(labels):
                 ctx.nontriv(inp)
-        elif got == 'unalignable':
+        elif got == 'failure':
             if small and best is not None:
                 ctx.violation('false-failure', 'force_align reports failure although a finite-cost alignment exists', inp, got, best)
-        elif got == 'reject':
-            if labels and blank not in labels:
-                ctx.violation('false-reject', 'force_align rejects well-formed labels', inp, got)
         if small and labels and blank not in labels and best is None and isinstance(got, list):
             ctx.violation('missed-failure', 'force_align returns a path although no finite-cost alignment exists', inp, got)
-        pos = call_positions(fa, M, labels, blank) if labels else 'reject'
+        pos = call_positions(fa, M, labels, blank) if labels else 'failure'
         if isinstance(pos, list) and isinstance(got, list):
             ok = all(a < b for a, b in zip(pos, pos[1:])) and len(pos) == len(labels)
             # most confident among the frames aligned to the character
@@ -160,6 +157,8 @@ def run(ctx):
             ra, rp = rep[2 * k], rep[2 * k + 1]
             ma = ra.get('ok', ra.get('err'))
             mp = rp.get('ok', rp.get('err'))
+            ma = 'failure' if ma in ('reject', 'unalignable') else ma
+            mp = 'failure' if mp in ('reject', 'unalignable') else mp
             q = reqs[2 * k]
             if ma != got:
                 # admissibility fallback: both ok, impl valid and optimal (already judged by the oracle above when small)
